@@ -856,7 +856,9 @@ class Name:
         """
 
         if self.is_subdomain(origin):
-            return Name(self[: -len(origin)])
+            # Note that self[: -len(origin)] would be wrong for the empty origin, as
+            # self[:-0] is the empty tuple, not all of self.
+            return Name(self.labels[: len(self.labels) - len(origin.labels)])
         else:
             return self
 
